@@ -46,11 +46,19 @@ func c06Alphabet() (full []xletter, core []xletter, errcore []xletter) {
 	B := func(p, s string) xletter {
 		return xl(fmt.Sprintf("Bind(%q<-%q)", p, s), "bind", p, s, pgproto.Bind(p, s, nil, nil, nil))
 	}
-	DS := func(n string) xletter { return xl(fmt.Sprintf("Describe(S %q)", n), "descS", n, "", pgproto.Describe('S', n)) }
-	DP := func(n string) xletter { return xl(fmt.Sprintf("Describe(P %q)", n), "descP", n, "", pgproto.Describe('P', n)) }
+	DS := func(n string) xletter {
+		return xl(fmt.Sprintf("Describe(S %q)", n), "descS", n, "", pgproto.Describe('S', n))
+	}
+	DP := func(n string) xletter {
+		return xl(fmt.Sprintf("Describe(P %q)", n), "descP", n, "", pgproto.Describe('P', n))
+	}
 	E := func(n string) xletter { return xl(fmt.Sprintf("Execute(%q)", n), "exec", n, "", pgproto.Execute(n, 0)) }
-	CS := func(n string) xletter { return xl(fmt.Sprintf("Close(S %q)", n), "closeS", n, "", pgproto.Close('S', n)) }
-	CP := func(n string) xletter { return xl(fmt.Sprintf("Close(P %q)", n), "closeP", n, "", pgproto.Close('P', n)) }
+	CS := func(n string) xletter {
+		return xl(fmt.Sprintf("Close(S %q)", n), "closeS", n, "", pgproto.Close('S', n))
+	}
+	CP := func(n string) xletter {
+		return xl(fmt.Sprintf("Close(P %q)", n), "closeP", n, "", pgproto.Close('P', n))
+	}
 	Q := func(prog, label string) xletter {
 		return xl("Query("+label+")", "query", prog, "", pgproto.Query(prog))
 	}
